@@ -1277,6 +1277,17 @@ def preorder(kv) -> list:
 
 
 def history_fails(doc, opts: dict, kind: str, k: int) -> str:
+    """_history_fails; an exception of the implementation that none of its steps expects is a description class too (never a
+    crash of the check)."""
+    try:
+        return _history_fails(doc, opts, kind, k)
+    except ImplTimeout:
+        return 'hang'
+    except Exception as e:      # noqa: BLE001
+        return f'unexpected-exception:{type(e).__name__}'
+
+
+def _history_fails(doc, opts: dict, kind: str, k: int) -> str:
     """'' if, after the aborted call of `kind` (k selects the write / leaf / block / number of lines), writing the tree again
     gives the text of a freshly built equal tree (for the tree itself and for every block below it) and the tree is unchanged;
     else a description class."""
@@ -1360,10 +1371,19 @@ def history_fails(doc, opts: dict, kind: str, k: int) -> str:
                 if want is None:
                     return ''
             elif kind == 'abandoned-export':
+                want_x, _ = write_text(build_root(doc), {}, 'export')
+                pre_x, _ = write_text(root, {}, 'export')
+                if want_x is None or pre_x != want_x:
+                    return DISTURBED        # (export() of a fresh tree is examined by the export round trip, earlier)
                 gen = root.export()
-                for _ in range(k % 7):
-                    if guarded(next, gen, None) is None:
-                        break
+                try:
+                    for _ in range(k % 7):
+                        if guarded(next, gen, None) is None:
+                            break
+                except ImplTimeout:
+                    raise
+                except Exception as e:      # noqa: BLE001   (the complete export() just before did not raise)
+                    return f'export-raised:{type(e).__name__}'
                 del gen
             else:
                 return ''
@@ -1660,6 +1680,7 @@ def search(ck: Ck) -> None:
     # tree is written again: every kind for the directed documents, one kind per generated tree.  They run after everything
     # else: a writer that keeps state across calls would otherwise disturb the oracles above (in a way no replay, which
     # starts a fresh process, could reproduce).
+    performed: list = []
     with warnings.catch_warnings():
         warnings.simplefilter('ignore')
         for i, doc, opts in hist_jobs:
@@ -1673,10 +1694,18 @@ def search(ck: Ck) -> None:
                 ck.count('search_histories')
                 ck.hist('search_history_kind', kind)
                 d = history_fails(doc, opts, kind, hk)
+                performed.append((doc, opts, kind, hk))
                 if d == DISTURBED:
-                    # what an earlier history of this process left behind hits a fresh tree (e.g. through a re-used id()):
-                    # no replay could show it (a replay is a fresh process); the history that left it behind is reported
+                    # what earlier histories of this process left behind hits a fresh tree (e.g. through a re-used id(), or a
+                    # leak per aborted call that has accumulated).  When a single history was already reported it is the
+                    # cause; otherwise the sequence of histories itself is the failing input (the last 3000 of them: a replay file of 2-3 MB)
                     ck.count('search_histories_disturbed_by_earlier_ones')
+                    if not any(k_.startswith('history:') for k_ in found):
+                        seq = [[dd, oo, kk, hh] for dd, oo, kk, hh in performed[-3000:]]
+                        report('history:accumulated:control-call-differs',
+                               f'after {len(performed) - 1} histories of aborted calls on other trees a freshly built tree is no '
+                               'longer written like an equal tree at the start of the process', doc, opts,
+                               {'history_sequence': seq})
                     continue
                 if d and may_shrink('history:' + kind, doc):
                     # (shrinking keeps the class: with state left behind in this process anything else is unreliable)
@@ -2016,6 +2045,15 @@ def replay(data: dict) -> int:
     doc = [tup(t) for t in r['doc']]
     opts = r.get('opts') or {}
     extra = r.get('extra') or {}
+    if extra.get('history_sequence'):
+        seq = extra['history_sequence']
+        print('history   :', f'{len(seq)} histories of aborted calls, one after the other, in this (fresh) process')
+        d = ''
+        for dd, oo, kk, hh in seq:
+            d = history_fails([tup(t) for t in dd], oo, kk, int(hh))
+        print('last one  :', d or 'the tree is written like a freshly built equal tree')
+        print('round trip:', 'DIFFERS' if d else 'OK')
+        return 0
     if extra.get('history'):
         print('tree      :', doc)
         print('options   :', opts)
